@@ -50,7 +50,7 @@ def plan(tier, seed):
 def mandatory(tier):
     out = [f"axes/{a}->{b}" for a, b in itertools.product(AXES, AXES)]
     out += [f"warp/{a}" for a in AXES] + [f"sample/{a}" for a in AXES] + [f"exp/{a}" for a in AXES]
-    out += [f"sample_same_domain/{h}" for h in ("downsample", "upsample", "resize", "flip_align_corners")] + ["shared_grid", "per_field_grids", "per_field_grids/same_spacing_other_orientation", "FlowField", "sitk", "helpers", "transform_flow/own", "transform_flow/flag_flipped", "transform_flow/same_domain_resized", "derived_grids/fractional_internal_size", "singleton_axis", "transform_flow/after_grid_"] + [f"regrid_method/{o}" for o in ("resize", "resample", "downsample", "avg_pool", "crop", "pad", "center_crop")]
+    out += [f"sample_same_domain/{h}" for h in ("downsample", "upsample", "resize", "flip_align_corners")] + ["shared_grid", "per_field_grids", "per_field_grids/same_spacing_other_orientation", "FlowField", "sitk", "helpers", "transform_flow/own", "transform_flow/flag_flipped", "transform_flow/same_domain_resized", "derived_grids/fractional_internal_size", "singleton_axis", "transform_flow/after_grid_", "warp/single_flow_batch"] + [f"regrid_method/{o}" for o in ("resize", "resample", "downsample", "avg_pool", "crop", "pad", "center_crop")]
     return out
 
 
@@ -159,6 +159,20 @@ def run_item(ctx, item):
     # ---------------- 2. warp_image: ramp image on the same grids
     ramps = [Ramp.random(rng, 2, ref) for ref in refs]
     img = ImageBatch(torch.tensor(np.stack([r.on_grid(ref) for r, ref in zip(ramps, refs)]), dtype=torch.float32), grids)
+    # one flow field applied to a batch of several images on its grid: one described entry per image, each equal to
+    # warping that image alone
+    with ctx.guard("FlowField.warp_image(batch)", key="exc/warp_single_flow_batch"):
+        a1 = str(rng.choice(AXES))
+        f1 = FlowField(torch.tensor(to_axes(refs[0], fields_w[0], a1), dtype=torch.float32), grids[0], ax[a1])
+        r0 = Ramp.random(rng, 2, refs[0])
+        many = ImageBatch(torch.tensor(np.stack([r0.on_grid(refs[0]) * (k_ + 1) for k_ in range(3)]), dtype=torch.float32), grids[0])
+        wb = f1.warp_image(many)
+        ok = ctx.true("single_flow_warps_every_image_of_a_batch", isinstance(wb, ImageBatch) and tuple(wb.shape) == tuple(many.shape) and len(wb.grids()) == 3 and all(g_ == grids[0] for g_ in wb.grids()), key="warp/single_flow_batch/type", got=[type(wb).__name__, list(wb.shape), len(wb.grids()) if hasattr(wb, "grids") else None], axes=a1)
+        if ok:
+            for k_ in range(3):
+                one = f1.warp_image(many[k_])
+                ctx.close("single_flow_batch_entry_equals_single_warp", wb.tensor()[k_], one.tensor().numpy(), 1e-6 * (1 + float(many.tensor().abs().max())), key="warp/single_flow_batch/values", axes=a1, entry=k_)
+        ctx.bucket("warp/single_flow_batch")
     for a in AXES:
         info = dict(axes=a, N=N, shared=shared)
         with ctx.guard("FlowFields.warp_image", **info):
